@@ -116,7 +116,13 @@ func ruleShortcut(p *core.Program) []core.Obligation {
 			}
 			k++
 			key := fmt.Sprintf("%s early return #%d", core.FuncName(fn), k)
-			if dependsOnBoolParam(fn, iff.Cond) {
+			flagAware := dependsOnBoolParam(fn, iff.Cond)
+			for _, c := range controllingConds(ret) {
+				if dependsOnBoolParam(fn, c) {
+					flagAware = true // e.g. `if !without && len(grouping) == 0`
+				}
+			}
+			if flagAware {
 				obs = append(obs, core.Ob(rule, key, p.Pos(ret.Pos()), core.FuncName(fn), core.Held, "guarded by a flag of the function"))
 				return
 			}
@@ -601,10 +607,16 @@ func ruleWorkerClose(p *core.Program) []core.Obligation {
 				}
 				for _, x := range tb.Instrs {
 					if c, ok := x.(*ssa.Call); ok {
-						if bi, ok := c.Call.Value.(*ssa.Builtin); ok && bi.Name() == "close" {
-							if l := core.Deref(c.Call.Args[0]); l != nil && core.IsFieldOf(l, modWorker, "Worker", "output") {
-								closes = true
-							}
+						if closesWorkerOutput(c) {
+							closes = true
+						}
+						// or a helper method of the worker that does
+						if callee := c.Call.StaticCallee(); callee != nil && p.InRepo(callee) && recvNamed(callee) == recvNamed(fn) {
+							core.EachInstr(callee, func(b2 *ssa.BasicBlock, j int, y ssa.Instruction) {
+								if c2, ok := y.(*ssa.Call); ok && closesWorkerOutput(c2) && allReturnsAfter(callee, c2) {
+									closes = true
+								}
+							})
 						}
 					}
 					if _, ok := x.(*ssa.Return); ok {
@@ -622,4 +634,13 @@ func ruleWorkerClose(p *core.Program) []core.Obligation {
 		}
 	})
 	return obs
+}
+
+func closesWorkerOutput(c *ssa.Call) bool {
+	bi, ok := c.Call.Value.(*ssa.Builtin)
+	if !ok || bi.Name() != "close" {
+		return false
+	}
+	l := core.Deref(c.Call.Args[0])
+	return l != nil && core.IsFieldOf(l, modWorker, "Worker", "output")
 }
